@@ -801,6 +801,7 @@ def run(ck):
     both_stream(ck, pki, devices, scratch)
     cli_stream(ck, pki, devices, scratch)
     side_streams(ck, drv)
+    dcd_streams(ck, drv)
 
 
 SECTION_NAMES = {20: ("SEC_CSF_HEADER", "Header"), 21: ("SEC_CSF_INSTALL_SRK", "InstallSRK"), 22: ("SEC_CSF_INSTALL_CSFK", "InstallCSFK"),
@@ -1038,6 +1039,226 @@ def side_streams(ck, drv):
     if drv is not None:
         for (inp, _l, real), ans in zip(reqs, drv.batch([r[1] for r in reqs])):
             sn.compare(inp, real, ans)
+
+
+def dcd_streams(ck, drv):
+    """Write Data / Check Data / Initialize / NOP / Unlock commands, parse_command over all classes, SegDCD and SegBDT round trips
+    (Model/HabDcd.lean through the driver ops dcmd / dcd / bdt)"""
+    from spsdk.image.commands import (CmdCheckData, CmdInitialize, CmdNop, CmdSet, CmdUnlockAbstract, CmdUnlockCAAM, CmdUnlockOCOTP, CmdUnlockSNVS,
+                                      CmdWriteData, EnumCheckOps, EnumEngine, EnumWriteOps, parse_command)
+    from spsdk.image.segments import SegBDT, SegDCD
+    rng = ck.rng
+    edge = [0, 1, 0xFF, 0x100, 0xFFFF, 0x10000, 0x7FFFFFFF, 0x80000000, 0xFFFFFFFE, 0xFFFFFFFF]
+    csf_only = {0xB1, 0xB2, 0xBE, 0xCA}   # tags whose malformed forms the model classifies only approximately: kept out of the bytes a mutated parse can walk into
+
+    def word(safe=False):
+        while True:
+            v = rng.choice(edge) if rng.random() < 0.4 else rng.getrandbits(32)
+            if not safe or not (set(v.to_bytes(4, "big")) & csf_only):
+                return v
+
+    def fields(c):
+        """canonical text of a command object (same layout as dcmdStr of the driver)"""
+        if isinstance(c, CmdWriteData):
+            return f"W,{c.num_bytes},{c.ops.tag}," + "+".join(f"{a}={v}" for a, v in c)
+        if isinstance(c, CmdCheckData):
+            return f"C,{c.num_bytes},{c.ops.tag},{c.address},{c.mask}," + ("N" if c.count is None else str(c.count))
+        if isinstance(c, CmdInitialize):
+            return f"I,{c.engine.tag}," + "+".join(str(v) for v in c._data)
+        if isinstance(c, CmdNop):
+            return f"N,{c._header.param}"
+        if isinstance(c, CmdUnlockAbstract):
+            return f"U,{c.engine.tag},{c.features},{c.uid}"
+        if isinstance(c, CmdSet):
+            return f"S,{c.itm.tag},{c.hash_algorithm.tag},{c.engine.tag},{c.engine_cfg}"
+        return "X," + c.export().hex()
+
+    def gen_cmd(kinds, safe=False):
+        """(command, finding id or None, class label); the finding predicate looks at the constructor arguments only"""
+        k = rng.choice(kinds)
+        if k == "W":
+            n = rng.choice([0, 0, 1, 1, 2, 3, rng.randrange(13), rng.randrange(13)] + ([rng.randrange(40, 200)] if rng.random() < 0.1 else []))
+            pairs = [(word(safe), word(safe)) for _ in range(n)]
+            w, o = rng.choice([1, 2, 4]), rng.choice(list(EnumWriteOps))
+            if rng.random() < 0.5:
+                c = CmdWriteData(w, o, pairs)
+            else:
+                c = CmdWriteData(w, o)
+                for a, v in pairs:
+                    c.append(a, v)
+            return c, None, f"write/{o.label}/{w}/n={min(n, 4)}"
+        if k == "C":
+            cnt = rng.choice([None, None, 0, 1, 0xFFFFFFFF, word(safe)])
+            if safe and cnt is not None and (set(cnt.to_bytes(4, "big")) & csf_only):
+                cnt = 5
+            w, o = rng.choice([1, 2, 4]), rng.choice(list(EnumCheckOps))
+            c = CmdCheckData(w, o, word(safe), word(safe), cnt)
+            return c, ("C07-checkdata-zero-count" if cnt == 0 else None), f"check/{o.label}/{w}/count={'none' if cnt is None else 'zero' if cnt == 0 else 'set'}"
+        if k == "N":
+            return CmdNop(rng.choice([0, 0, rng.getrandbits(8)])), None, "nop"
+        if k == "I":
+            n = rng.choice([0, 1, 2, rng.randrange(10)])
+            vals = [min(word(safe), 0xFFFFFFFE) for _ in range(n)]
+            eng = rng.choice(list(EnumEngine))
+            if n and rng.random() < 0.3:
+                return CmdInitialize(eng, list(vals)), "C07-initialize-ctor-data", "initialize/ctor-data"
+            c = CmdInitialize(eng)
+            for v in vals:
+                c.append(v)
+            return c, None, f"initialize/append/n={min(n, 3)}"
+        u = rng.randrange(3)
+        if u == 0:
+            return CmdUnlockSNVS(rng.randrange(4)), None, "unlock/snvs"
+        if u == 1:
+            return CmdUnlockCAAM(rng.randrange(8)), None, "unlock/caam"
+        return CmdUnlockOCOTP(rng.randrange(16), rng.getrandbits(64)), None, "unlock/ocotp"
+
+    def model_line(parsed):
+        """what the model has to answer for the result of the real parse: ('ok', (fields, export, size)) or an error class"""
+        return f"ok:{parsed[1][0]}:{parsed[1][1].hex()}:{parsed[1][2]}" if parsed[0] == "ok" else parsed[0]
+
+    sd = ck.stream("dcd_commands", "Write Data (every operation x width 1/2/4, 0..12 and occasionally 40..200 address/value pairs, constructor list or append), Check Data "
+                   "(every operation x width, poll count None / 0 / 1 / 0xFFFFFFFF / random), Initialize (every engine, words by append or constructor list), NOP, "
+                   "Unlock SNVS/CAAM/OCOTP with boundary words 0 / 0xFFFFFFFF: parse_command(export + junk) == command, its export is the same bytes and "
+                   "size == len(export); SegDCD of 0..8 such commands: SegDCD.parse(export + junk) == segment, same bytes, size == len; SegBDT likewise; "
+                   "malformed commands / segments (truncated, tag replaced, length field changed, width / engine invalid, Initialize inside a DCD): result "
+                   "or error class. The model (Model/HabDcd.lean) answers every parse with the same fields / bytes / size / error class. non-trivial = distinct bytes")
+    reqs = []
+    # ------------------------------------------------------------ single commands
+    for _ in range(ck.budget(300, 5000)):
+        got = pyres(gen_cmd, ["W", "W", "C", "C", "N", "I", "I", "U"])
+        if got[0] != "ok":
+            sd.expect(False, "constructor", "a command constructor refused values inside its documented range", got)
+            continue
+        cmd, fid, label = got[1]
+        raw = pyres(cmd.export)
+        if raw[0] != "ok":
+            sd.expect(False, label, "command export raised", raw)
+            continue
+        raw = raw[1]
+        sd.note(raw.hex(), cls=label)
+        junk = bytes(rng.getrandbits(8) for _ in range(rng.randrange(9)))
+        back = pyres(parse_command, raw + junk)
+        parsed = pyres(lambda: (fields(back[1]), back[1].export(), back[1].size)) if back[0] == "ok" else back
+        sd.expect(pyres(lambda: cmd.size) == ("ok", len(raw)), fields(cmd), "size differs from the length of the exported command", (pyres(lambda: cmd.size), len(raw)), None, finding=fid)
+        sd.expect(back[0] == "ok" and back[1] == cmd, fields(cmd), "parse_command(export) does not give the command back",
+                  parsed if parsed[0] != "ok" else parsed[1][0], fields(cmd), finding=fid)
+        sd.expect(parsed[0] == "ok" and parsed[1][1] == raw and parsed[1][2] == len(raw), fields(cmd), "export of the parsed command differs from the exported bytes",
+                  parsed if parsed[0] != "ok" else (parsed[1][1].hex(), parsed[1][2]), (raw.hex(), len(raw)), finding=fid)
+        reqs.append((raw.hex(), "dcmd " + ((raw + junk).hex() or "-"), model_line(parsed)))
+    # ------------------------------------------------------------ DCD segments
+    def build_seg(safe=False):
+        param = rng.choice([0x41, 0x41, 0x40, rng.getrandbits(8)])
+        seg = SegDCD(param, True)
+        fids = []
+        for _c in range(rng.choice([0, 1, 2, 3, rng.randrange(9)])):
+            c, fid, _l = gen_cmd(["W", "W", "C", "C", "N"] + ([] if safe else ["U"]), safe)
+            seg.append(c)
+            fids.append(fid)
+        return seg, next((f for f in fids if f), None)
+
+    def seg_view(sg):
+        return (f"{sg.header.param}:" + "|".join(fields(c) for c in sg.commands), sg.export(), sg.size)
+
+    for _ in range(ck.budget(80, 1500)):
+        got = pyres(build_seg)
+        if got[0] != "ok":
+            sd.expect(False, "SegDCD.append", "building a DCD from Write / Check / NOP / Unlock commands raised", got)
+            continue
+        seg, fid = got[1]
+        raw = pyres(seg.export)
+        if raw[0] != "ok":
+            sd.expect(False, seg_view(seg)[0] if fid is None else "dcd", "SegDCD.export raised", raw, None, finding=fid)
+            continue
+        raw = raw[1]
+        sd.note(raw.hex(), cls=f"dcd/cmds={min(len(seg), 4)}")
+        junk = bytes(rng.getrandbits(8) for _ in range(rng.randrange(5)))
+        back = pyres(SegDCD.parse, raw + junk)
+        parsed = pyres(seg_view, back[1]) if back[0] == "ok" else back
+        ident = pyres(lambda: seg_view(seg)[0])[-1]
+        sd.expect(pyres(lambda: seg.size) == ("ok", len(raw)), ident, "SegDCD.size differs from the length of the exported segment", (pyres(lambda: seg.size), len(raw)), None, finding=fid)
+        sd.expect(back[0] == "ok" and back[1] == seg, ident, "SegDCD.parse(export) does not give the segment back", parsed if parsed[0] != "ok" else parsed[1][0], ident, finding=fid)
+        sd.expect(parsed[0] == "ok" and parsed[1][1] == raw, ident, "export of the parsed DCD differs from the exported bytes", parsed if parsed[0] != "ok" else parsed[1][1].hex(), raw.hex(), finding=fid)
+        reqs.append((raw.hex(), "dcd " + (raw + junk).hex(), model_line(parsed)))
+    # ------------------------------------------------------------ boot data
+    for _ in range(ck.budget(20, 200)):
+        st, ln, pl = word(), word(), rng.randrange(3)
+        b = pyres(lambda: SegBDT(st, ln, pl))
+        raw = pyres(lambda: b[1].export())
+        sd.note(("bdt", st, ln, pl), cls="bdt")
+        back = pyres(lambda: SegBDT.parse(raw[1] + b"\x00" * rng.randrange(3)))
+        sd.expect(raw[0] == "ok" and len(raw[1]) == b[1].size and back[0] == "ok" and back[1] == b[1] and back[1].export() == raw[1], (st, ln, pl),
+                  "SegBDT.parse(export) does not give the boot data back / size differs", (raw, back))
+        if raw[0] == "ok":
+            reqs.append((raw[1].hex(), "bdt " + raw[1].hex(), f"ok:{st},{ln},{pl}:{raw[1].hex()}"))
+    for bad in (struct.pack("<3L", 0x60000000, 0x2000, 3), struct.pack("<3L", 0, 0, 0xFFFFFFFF), b"\x00" * 11, b""):
+        sd.note(("bdt-bad", bad.hex()), cls="bdt/malformed")
+        r = pyres(SegBDT.parse, bad)
+        reqs.append((bad.hex(), "bdt " + (bad.hex() or "-"), f"ok:{r[1].app_start},{r[1].app_length},{r[1].plugin}:{r[1].export().hex()}" if r[0] == "ok" else r[0]))
+    # ------------------------------------------------------------ malformed commands and segments: result or error class
+    def mutate(raw, positions):
+        """one mutation of exported bytes; `positions` = offsets of command headers inside `raw` (0 for a single command)"""
+        b = bytearray(raw)
+        m = rng.randrange(6)
+        pos = rng.choice(positions) if positions else 0
+        if m == 0 or len(b) < 4:
+            return bytes(b[:rng.randrange(len(b) + 1)]), "truncated"
+        if m == 1:
+            b[pos] = rng.choice([0xCC, 0xCF, 0xB4, 0xC0, 0x00, 0xCD, 0xD2, 0xFF])
+            return bytes(b), "tag"
+        if m == 2:
+            cur = b[pos + 1] * 256 + b[pos + 2]
+            new = rng.choice([0, 3, 4, 5, 8, 12, 13, 16, max(cur - 1, 0), cur + 1, max(cur - 4, 0), cur + 4, cur + 8, 0xFFFF])
+            b[pos + 1], b[pos + 2] = new >> 8, new & 0xFF
+            return bytes(b), "length"
+        if m == 3:
+            b[pos + 3] = rng.choice([0, 3, 5, 6, 7, 0x1C, 0x24, 0x44, 0xE4, 0xFF, 0x02, 0x1D])
+            return bytes(b), "param"
+        if m == 4:
+            cut = rng.randrange(len(b) + 1)
+            return bytes(b[:cut]) + bytes(rng.choice([0x00, 0xC0, 0xCC, 0xCF, 0xB4, 0x04, 0x41]) for _ in range(rng.randrange(1, 9))), "tail-replaced"
+        return bytes(b) + bytes(b[pos:pos + 4]), "header-repeated"
+
+    for _ in range(ck.budget(200, 4000)):
+        if rng.random() < 0.5:
+            got = pyres(gen_cmd, ["W", "C", "N", "I"], True)
+            if got[0] != "ok":
+                continue
+            raw = pyres(got[1][0].export)
+            if raw[0] != "ok":
+                continue
+            data, how = mutate(raw[1], [0])
+            sd.note(("bad-cmd", data.hex()), cls="malformed-command/" + how)
+            back = pyres(parse_command, data)
+            parsed = pyres(lambda: (fields(back[1]), back[1].export(), back[1].size)) if back[0] == "ok" else back
+            reqs.append((data.hex(), "dcmd " + (data.hex() or "-"), model_line(parsed)))
+        else:
+            got = pyres(build_seg, True)
+            if got[0] != "ok":
+                continue
+            seg = got[1][0]
+            raw = pyres(seg.export)
+            if raw[0] != "ok":
+                continue
+            positions, off = [0], 4
+            for c in seg.commands:
+                positions.append(off)
+                off += len(c.export())
+            if rng.random() < 0.15:   # an Initialize command inside a DCD: SegDCD.append refuses it, so must SegDCD.parse
+                ini = CmdInitialize(EnumEngine.ANY)
+                ini.append(1)
+                body = raw[1][4:] + ini.export()
+                data, how = struct.pack(">BHB", 0xD2, 4 + len(body), raw[1][3]) + body, "initialize-inside"
+                sd.expect(pyres(seg.append, ini) == ("E:spsdk",), "SegDCD.append(CmdInitialize)", "SegDCD accepted a command outside its command set", None)
+            else:
+                data, how = mutate(raw[1], positions)
+            sd.note(("bad-dcd", data.hex()), cls="malformed-dcd/" + how)
+            back = pyres(SegDCD.parse, data)
+            parsed = pyres(seg_view, back[1]) if back[0] == "ok" else back
+            reqs.append((data.hex(), "dcd " + (data.hex() or "-"), model_line(parsed)))
+    if drv is not None:
+        for (inp, line, real), ans in zip(reqs, drv.batch([r[1] for r in reqs])):
+            sd.compare(line.split(" ")[0] + " " + inp, real, ans)
 
 
 def replay(ck, data):
